@@ -45,19 +45,17 @@ theorem step_inline_inv {p : Params} (hp : ParamsOk p) {dflt : Nat} {st st' : St
       · cases h; exact hc
       · rename_i k
         split at h
-        · rename_i hcond
-          cases h
-          apply KeysInv.bump hc
-          have : p.supportBufferAddress = true := by
-            simp at hcond; exact hcond.1.1
-          have hm := hp this
-          have hl : len = none := by simp at hcond; exact hcond.2
-          subst hl
-          simp [slotCount, sliceCost_spec, hm]
+        · cases h; exact hc
         · split at h
-          · split at h
-            · cases h; exact hc
-            · cases h
+          · rename_i hcond
+            cases h
+            apply KeysInv.bump hc
+            have : p.supportBufferAddress = true := by
+              simp at hcond; exact hcond.1.1
+            have hm := hp this
+            have hl : len = none := by simp at hcond; exact hcond.2
+            subst hl
+            simp [slotCount, sliceCost_spec, hm]
           · cases h; exact hc
 
 theorem run_inline_inv {p : Params} (hp : ParamsOk p) {dflt : Nat} :
